@@ -472,15 +472,15 @@ def directed(name, quick):
 
 
 SOURCES = {
-    'C01': ('flat', 'nest', 'chan', 'deep', 'subrel', 'implicitdeep', 'unroll2', 'unroll3', 'sim', 'repotests', 'library'),
-    'C02': ('twinblocks', 'subrel', 'nest3', 'flat', 'nest', 'chan', 'deep', 'obsnest', 'sim', 'repotests', 'library'),
+    'C01': ('flat', 'nest', 'chan', 'deep', 'subrel', 'implicitdeep', 'twinblocks', 'unroll2', 'unroll3', 'sim', 'repotests', 'library'),
+    'C02': ('kinds', 'twinblocks', 'subrel', 'nest3', 'flat', 'nest', 'chan', 'deep', 'obsnest', 'sim', 'repotests', 'library'),
     'C04': ('flat', 'nest', 'nest0', 'durhist', 'subrel', 'sim', 'repotests'),
     'C05': ('kinds', 'copyapplied', 'twinops', 'twinblocks', 'regrep', 'nest', 'mask', 'sim'),
     'C06': ('unroll', 'unroll2', 'unroll3', 'applyalias', 'regrep', 'twinblocks', 'nest', 'sim', 'library'),
     'C07': ('acq', 'acqdir', 'sim'),
     'C11': ('flatten', 'flatdir', 'flatnest', 'sim', 'library'),
     'C03': ('hist', 'plothist', 'acq', 'acqdir', 'twinops', 'twinblocks', 'durhist', 'nest3', 'obsnest', 'sim'),
-    'C08': ('kinds', 'export', 'sim', 'library'),
+    'C08': ('kinds', 'export', 'regrep', 'sim', 'library'),
     'C18': ('drawkinds', 'drawdir', 'drawhist', 'drawnest'),
     'C15': ('kinds', 'export', 'qldir', 'qlreal'),
 }
